@@ -149,6 +149,9 @@ def run(ctx):
             suc = rng.choice([1 - 1e-4, 0.9, 0.5, 1.0])
             cases.append({"fn": "angle_sequence", "p": [hexf(x) for x in p], "eps": hexf(eps), "suc": hexf(suc),
                           "bits": [rng.randint(0, 1) for _ in range(8)], "shape": shape, "family": False, "timeout": 300})
+    for c in (cases if ctx.replay is None else []):
+        if c.get("fn") == "angle_sequence" and rng.random() < 0.3:
+            c["as_list"] = True       # the coefficient vector as a Python list
     impl = run_impl(cases, timeout=3000)
     lines, keep = [], []
     for c, r in zip(cases, impl):
